@@ -1,7 +1,7 @@
 (* Commands of the concrete codecs (codes 21000 + sub): Model/Codecs.v — nothing recorded per case. *)
 From Coq Require Import List ZArith NArith Bool.
 From BS Require Import Base.Sexp Base.Types Gen.T_Codecs Model.Dammit Model.Sniff Model.Encode Model.Codecs
-     Run.D_C07 Run.D_C08.
+     Spec.SniffSpec Spec.DammitSpec Model.Autodetect Run.D_C07 Run.D_C08.
 Import ListNotations.
 Open Scope Z_scope.
 
@@ -68,5 +68,55 @@ Definition disp_cd (sub : Z) (args : list sexp) : sexp :=
       | Some c => slist (fun x => s_ostr (codec_enc_char c x)) (gstr cs)
       | None => A (-4)
       end
+  (* (21010 style name bpre bpost) -> (in_names no_bom in_window no_xml no_meta all window) : the hypotheses of
+     C08_autodetect_declared in decidable form (Model/Autodetect.v), on b = bpre ++ meta_tag style name ++ bpost *)
+  | 10, st :: nm :: bp :: bq :: _ =>
+      let st' := if Z.eqb (gZ st) 0 then MCharset else MContent in
+      let e := gstr nm in let bpre := gstr bp in let bpost := gstr bq in
+      let b := bpre ++ meta_tag st' e ++ bpost in
+      let W := html_window (length b) in
+      L [sbool (existsb (fun p => str_eqb (fst p) e) encoder_names);
+         sbool (str_eqb (fst (strip_bom b)) b && match snd (strip_bom b) with None => true | Some _ => false end);
+         sbool (Nat.leb (length bpre + length (tag_head st' e)) W);
+         sbool (no_xml_b b);
+         sbool (no_meta_b bpre (tag_head st' e ++ firstn (W - length bpre - length (tag_head st' e)) (tag_tail st' ++ bpost)));
+         sbool (detect_conditions_b st' e bpre bpost);
+         snat W]
+  (* (21011 style name) -> the tag text *)
+  | 11, st :: nm :: _ => sstr (meta_tag (if Z.eqb (gZ st) 0 then MCharset else MContent) (gstr nm))
+  (* (21012 shape name exclude bytes) -> (name_modelled nonempty no_mark declared? resolved? (text? orig? flag)) :
+     hypotheses and right-hand side of the C07 call-shape theorems (Proofs/DetectShapes.v).
+     shape 0: known_definite_encodings=[name] / from_encoding=name   -> concrete_outcome (named_candidates name k)
+     shape 1: the document declares name                              -> the same
+     shape 2: exclude_encodings=exclude                               -> concrete_outcome (default_candidates ...)
+     shape 3: the document declares something that is no modelled codec -> concrete_outcome (default_candidates false false);
+              `resolved` = what find_codec makes of the declared name when that is no modelled codec *)
+  | 12, sh :: nm :: ex :: bs :: _ =>
+      let e := gstr nm in let b := gstr bs in let X := glist gstr ex in
+      let kk := match find (fun p => str_eqb (fst p) e) decoder_names with Some p => Some (snd p) | None => None end in
+      let decl := find_declared_encoding lower_ascii (MBytes b) true false in
+      let unknown := match decl with
+                     | Some d => match find_codec lower_ascii c_known d with
+                                 | Some d' => match codec_of_name d' with
+                                              | None => if str_eqb (lower_ascii d) n_utf8 || str_eqb (lower_ascii d) n_windows1252
+                                                        then None else Some d'
+                                              | Some _ => None
+                                              end
+                                 | None => None
+                                 end
+                     | None => None
+                     end in
+      let rhs := match gZ sh with
+                 | 0 | 1 => match kk with Some k => concrete_outcome (named_candidates e k) b | None => (None, None, false) end
+                 | 2 => concrete_outcome (default_candidates (excluded lower_ascii X n_utf8) (excluded lower_ascii X n_windows1252)) b
+                 | _ => concrete_outcome (default_candidates false false) b
+                 end in
+      L [sbool (match kk with Some _ => true | None => false end);
+         sbool (negb (is_empty b));
+         sbool (str_eqb (fst (strip_bom b)) b && match snd (strip_bom b) with None => true | Some _ => false end);
+         s_ostr decl; s_ostr unknown;
+         L [s_ostr (fst (fst rhs)); s_ostr (snd (fst rhs)); sbool (snd rhs)]]
+  (* (21013 wide text) -> (0) | (1 bytes) : str.encode("utf-16" / "utf-32", "xmlcharrefreplace"); wide 0 = utf-16, 1 = utf-32 *)
+  | 13, w :: t :: _ => c08_s_obytes (wide_encode (if Z.eqb (gZ w) 0 then W16 else W32) (gstr t))
   | _, _ => A (-1)
   end.
